@@ -313,3 +313,14 @@ Proof.
     as (data & E & _ & Hd).
   exists data. split; [exact E|exact Hd].
 Qed.
+
+(* an integer-valued metric with the (default) bca method: Scores.bootstrap_ci raises whatever the sampler does *)
+Lemma int_metric_bca_raises (S K N H : Type) dynamic_choice builtin_sample getattr_type (Phi PhiInv pow15 : Q -> Q) yshape
+    (self : S) (metric : metric_arg S K (list rate) N) alpha (cfg : config S) (hist : nat -> H) (kw : K) :
+  bootstrap_method cfg = MBca ->
+  bootstrap_ci_m S K (list rate) N H _ dynamic_choice builtin_sample getattr_type (utils_ci_dt Phi PhiInv pow15 DInt yshape)
+                 self metric alpha cfg hist kw = Err.
+Proof.
+  intro Hm. rewrite bootstrap_ci_m_spec. destruct (bootstrap_metric _ _ _ _ _ _ _ _ _ _ _ _ _); [|reflexivity].
+  unfold utils_ci_dt, bootstrap_ci_dt. now rewrite Hm.
+Qed.
